@@ -1,9 +1,20 @@
-FIX_COMMITS = ['ee63c4e', '8e72bfe', 'fac3c39', '803947b', '012bab8', 'dbf4700', '19f97fb', '925775e', 'cbd12ec', 'f843f54', '7a5e3b3', '35d5997', 'bbada35']
+FIX_COMMITS = ['ee63c4e', '8e72bfe', 'fac3c39', '803947b', '012bab8', 'dbf4700', '19f97fb', '925775e', 'cbd12ec', 'f843f54', '7a5e3b3', '35d5997', 'bbada35', '867f25c']
 TODO = 'check not built yet in this revision (work in progress; see DESIGN.md section 7 for the planned solver-based check)'
 NOT_APPLICABLE = {('C%02d' % i): TODO for i in range(1, 21)}
 R_NOTE = ('R-model: floats are mathematical reals, float literals are the decimal rationals written in the source, '
           'transcendental functions are uninterpreted with sound axiom instances; IEEE rounding is outside the claim. ')
 CHECKS = {
+    'C15': {
+        'text': 'Wiring by bounded symbolic execution + SMT: CoordCart.geo/tm, CoordGeo.cart/tm/notation, CoordTM.geo/cart (real source) on symbolic '
+                'coordinates, heights (present incl. exactly 0.0 / absent in every combination), symbolic ellipsoid, UTM/ISG/symbolic projection '
+                'and the six notations, with xyz2llh/llh2xyz/grid2geo/geo2grid (hemisphere label an uninterpreted predicate) and dec2hp/hp2dec as '
+                'argument-recording summaries: every conversion returns exactly the functional conversion for the same ellipsoid, projection and '
+                'notation, heights preserved geo<->tm, N = h - H to/from Cartesian, hemisphere flag = returned label, notation() correct for all '
+                '36 source/target pairs.',
+        'design_ref': 'DESIGN.md section 7 C15',
+        'note': '0.3 mm chain closure is a derived bound (C02/C03), not a query; HP conversion internals are summarised (C08).',
+        'technique': 'symbolic execution of the real Python source with callee summaries + SMT (z3 EUF/LIRA), witness replay',
+    },
     'C14': {
         'text': 'Wiring + formula by bounded symbolic execution + SMT: vincinv_utm, vincdir_utm (loop unrolled K=2), line_sf (same and cross zone), rho, '
                 'nu (real source) on symbolic grid coordinates, zones, both hemispheres and a symbolic ellipsoid with grid2geo/geo2grid/vincinv/'
